@@ -166,9 +166,13 @@ def ob_sequential(f: int, verbose: int, n0: int) -> bool:
         return H.verdict(not probs)
 
 
-def ob_timeout(stuck: int, pos0: int, pk: int) -> bool:
+TIMEOUTS = [0.05, 0, 0.0]       # 0 is a valid time-out: "do not wait at all", not "wait for ever"
+
+
+def ob_timeout(stuck: int, pos0: int, pk: int, tmo: int) -> bool:
     """
     pre: 0 <= stuck <= 4
+    pre: 0 <= tmo <= 2
     pre: -1 <= pos0 <= 600
     pre: 0 <= pk <= 1
     post: _
@@ -179,16 +183,17 @@ def ob_timeout(stuck: int, pos0: int, pk: int) -> bool:
     st = H.select(stuck, 0, 4)
     p0 = H.select_bisect(pos0, -1, steps)
     pkv = H.select(pk, 0, 1)
+    tv = TIMEOUTS[H.select(tmo, 0, 2)]
     with H.native():
         params = dict(H.PARAMS)
         params["stuck"] = (st,)
-        params["timeout"] = 0.05
+        params["timeout"] = tv
         calls = [dict(n_tasks=5)]
         pre = [(p0, 0)] if p0 >= 0 else []
         o = parlib.run(_cfg(params, calls), dict(preempt=pre, picks=[pkv]))
         probs = _check_calls(o, [("timeout", 5)])
         for m in probs:
-            H.note("batch %d never completes, timeout=0.05, preempt=%r: %s" % (st, pre, m))
+            H.note("batch %d never completes, timeout=%r, preempt=%r: %s" % (st, tv, pre, m))
         return H.verdict(not probs)
 
 
@@ -270,7 +275,7 @@ def obligations(tier, seed):
     for be, ra in [("threading", "list"), ("loky", "list"), ("stub_cb", "generator"), ("threading", "generator_unordered")]:
         obs.append({"name": "timeout/%s/%s" % (be, ra), "fn": "ob_timeout", "mode": "S",
                     "params": {"backend": be, "return_as": ra, "n0": 5}, "timeout": 600,
-                    "bounds": "5 tasks, batch 0..4 never completes, timeout=0.05 s of simulated time, one pre-emption anywhere"})
+                    "bounds": "5 tasks, batch 0..4 never completes, timeout in {0.05 s, 0, 0.0}, one pre-emption anywhere"})
     for be, uw in [("threading", True), ("loky", False)]:
         obs.append({"name": "history/%s/with=%s" % (be, uw), "fn": "ob_history", "mode": "S",
                     "params": {"backend": be, "use_with": uw}, "timeout": 600,
